@@ -196,6 +196,7 @@ package scheduler
 //@     requires #C09.stage-env-over-task-env stage.Env != nil && old(stage.Task.Env) != nil ==> over(stage.Task.Env, old(stage.Task.Env), stage.Env)
 //@     requires #C10.stage-vars-over-task-vars stage.Variables != nil && old(stage.Task.Variables) != nil ==> over(stage.Task.Variables, old(stage.Task.Variables), stage.Variables)
 //@   callsite Schedule
+//@     requires #C18.no-inclusion-cycle !(stage.Name in stage.Pipeline.nodes && stage.Pipeline.nodes[stage.Name] == stage)
 //@     assume stage.Status == old(stage.Status) // a stage is not a node of the pipeline it includes (see known finding: pipeline inclusion cycles)
 
 //@ func NewExecutionGraph
